@@ -39,6 +39,10 @@ def vod_oracle(ctx, rec):
                 ctx.violation('static timeline lists entry %d ($Time$=%d) but the representation has %d segments; the request is refused'
                               % (i + 1, t, n), {'rep': rep, 'tm': rec['tm'], 'q': [t, None]}, key=cls)
             continue
+        if t != sc.prefix(rep, i) or d != rep['durs'][i] or m != i + 1:
+            ctx.violation('static timeline entry %d is (t=%d, d=%d, segment %d); the stored track has t=%d, d=%d'
+                          % (i + 1, t, d, m, sc.prefix(rep, i), rep['durs'][i]), {'rep': rep, 'tm': rec['tm'], 'q': [t, None]})
+            continue
         if not out or out[0] == 'CRASH' or out[0] != m or out[1] != t:
             inside = i * sd <= t + sd // 4 < (i + 1) * sd
             ctx.violation('static timeline entry %d ($Time$=%d, segment %d) is answered with %r' % (i + 1, t, m, out),
